@@ -89,13 +89,17 @@ func buildPkg(c PkgCase) (p *Program, bad string) {
 	}
 	var prelude []*Node
 	prelude = append(prelude, P(`(in-package '`+c.Pkg+`)`, nil))
-	if c.Export || c.Class == "unqualified-in-user-used" {
-		prelude = append(prelude, P(`(export '`+c.Name+` 'helper)`, nil))
-	}
+	exported := "zed9"
 	if c.Define {
 		prelude = append(prelude, defunNode("defun", c.Name, c.Sig, P(`(user:probe "pk")`, nil)))
+		exported = c.Name
 	} else {
 		prelude = append(prelude, P(`(defun zed9 () 1)`, nil))
+	}
+	if c.Export || c.Class == "unqualified-in-user-used" {
+		// only names the package binds itself are exported (use-package
+		// refuses an exported symbol that is unbound)
+		prelude = append(prelude, P(`(export '`+exported+`)`, nil))
 	}
 	toUser := P(`(in-package 'user)`, nil)
 	p = &Program{}
@@ -243,7 +247,17 @@ func checkPkg(c PkgCase, ctx *vcommon.Ctx) *vcommon.Failure {
 	case kind == "package-defun" && reported && strings.Contains(analyzersOf(onCall), "builtin-arity"):
 		main = vcommon.Failf("arity/pkg/"+class+"/core-check-on-package-function", "the call reaches the package's own defun, but the core builtin's check fires:%s", desc)
 	case !reported && ((bindFail && !sig.HasKey()) || obs == bindCount):
-		main = vcommon.Failf("arity/pkg/"+class+"/missed/"+kind, "the call fails argument binding, but the linter accepts it:%s", desc)
+		// one key per way the call is written and what it reaches
+		group := "unqualified-to-core-builtin"
+		switch {
+		case strings.Contains(c.Class, "qualified-") && !strings.HasPrefix(c.Class, "unqualified"):
+			group = "qualified-head"
+		case kind == "package-defun":
+			group = "unqualified-to-package-defun"
+		case c.Define:
+			group = "unqualified-to-core-builtin-beside-package-defun"
+		}
+		main = vcommon.Failf("arity/pkg/"+group+"/missed", "[%s, reaches %s] the call fails argument binding, but the linter accepts it:%s", class, kind, desc)
 	}
 	var strayF *vcommon.Failure
 	if len(stray) > 0 {
